@@ -57,6 +57,15 @@ func (lb *loadBalancer) Remove(u Upstream) bool {
 	return len(lb.upstreams) == 0
 }
 
+func (lb *loadBalancer) Contains(u Upstream) bool {
+	for _, upstream := range lb.upstreams {
+		if upstream == u {
+			return true
+		}
+	}
+	return false
+}
+
 func (lb *loadBalancer) Next() Upstream {
 	if len(lb.upstreams) == 0 {
 		return nil
@@ -137,6 +146,11 @@ func (m *LoadBalancedManager) RemoveConn(u Upstream) {
 
 	lb, ok := m.localUpstreams[u.EndpointID()]
 	if !ok {
+		return
+	}
+	if !lb.Contains(u) {
+		// Already removed (such as by the proxy after the upstream signalled
+		// it is going away), so there is nothing left to deregister.
 		return
 	}
 	if lb.Remove(u) {
